@@ -199,5 +199,8 @@ func PKCS1v15() RSA {
 
 func init() {
 	RegisterDecrypter(OAEP())
+	// OAEP_SHA256 and OAEP_SHA512 share one algorithm identifier; the digest is
+	// read from the DigestMethod element when decrypting.
+	RegisterDecrypter(OAEP_SHA256())
 	RegisterDecrypter(PKCS1v15())
 }
